@@ -150,7 +150,25 @@ def build_program(rng, nvals):
         else:
             lab = rng.choice(['LA', 'LB'])
             base = interesting_value(rng) & ~3
-            e = '%%position(%s, %s)' % (lab, spell(rng, base))
+            btxt = spell(rng, base)
+            if rng.random() < 0.4:
+                # the address as an expression whose top-level operator binds looser than `+` (bank << 26, base | offset, ...)
+                k = rng.randrange(5)
+                if k == 0 and base:
+                    low = (base & -base).bit_length() - 1
+                    btxt = '%d << %d' % (base >> low, low)
+                elif k == 1:
+                    m = rng.getrandbits(32)
+                    btxt = '%d | %d' % (base & m, base & ~m & M32)
+                elif k == 2:
+                    m = rng.getrandbits(20)
+                    btxt = '%d ^ %d' % (base ^ m, m)
+                elif k == 3:
+                    btxt = '%d & %d' % (base | (rng.getrandbits(32) & ~base & M32) if False else base, base | rng.getrandbits(32))
+                else:
+                    sh = rng.randrange(1, 5)
+                    btxt = '%d >> %d' % (base << sh, sh)
+            e = '%%position(%s, %s)' % (lab, btxt)
             val = ('label', lab, base)
         kind = rng.choice(['lui_addi', 'lui_lw', 'lui_sw', 'auipc_addi', 'auipc_jalr', 'lui_addi', 'li', 'li'])
         rd = rng.choice([5, 6, 7, 8, 9, 10, 15, 28])
